@@ -285,6 +285,34 @@ def run(ctx):
                 ctx.violation('block record %r under protocol %d does not round-trip' % (r, v),
                               {'version': v, 'record': r, 'impl': got, 'decoded': repr(back)},
                               key={'version': v, 'record': list(r)})
+    # ---- the record packing at EVERY known version (supported or not, development snapshots included): the packed form
+    # (one VarLong: state << 12 | x << 8 | z << 4 | y) from 20w29a (protocol 741) on, byte/byte/VarInt before; the packet
+    # header and the chunk-section position switch at the same version, so the two must agree everywhere
+    import refcodec as rc_
+    for v in sorted(idx, key=idx.get):
+        c = ConnectionContext(protocol_version=v)
+        new = idx[v] >= idx[741]
+        for _ in range(2):
+            x, y, z, bs = rng.randrange(16), rng.randrange(16 if new else 256), rng.randrange(16), rng.choice([0, 1, 4095, rng.randrange(2 ** 20)])
+            want = rc_.varint(bs << 12 | x << 8 | z << 4 | y) if new else bytes([x << 4 | z, y]) + rc_.varint(bs)
+            s = Sink()
+            back = None
+            try:
+                MBC.Record.send_with_context(MBC.Record(x=x, y=y, z=z, block_state_id=bs), s, c)
+                got = bytes(s.b)
+                f = io.BytesIO(want + b'\x55')
+                q = MBC.Record.read_with_context(f, c)
+                back = (q.x, q.y, q.z, q.block_state_id, f.read())
+            except Exception as e:
+                got = 'err:' + ename(e)
+            ctx.case(('rec-all-versions', v, x, y, z, bs))
+            if got != want or back != (x, y, z, bs, b'\x55'):
+                ctx.violation('block record %r under known protocol %d (%s 741 in release order): encodes to %s, the %s form is %s; '
+                              'that form decodes to %r' % ((x, y, z, bs), v, 'at or after' if new else 'before',
+                                                           got.hex() if isinstance(got, bytes) else got,
+                                                           'packed VarLong' if new else 'byte/byte/VarInt', want.hex(), back),
+                              {'version': v, 'record': [x, y, z, bs]}, key={'kind': 'record-all-versions', 'version': v})
+                break
 
 
 def replay(ctx, rp):
